@@ -8,6 +8,7 @@ import (
 	"os"
 	"sort"
 	"strings"
+	"time"
 )
 
 // D is a replayable case descriptor: JSON-serialisable values only (hex
@@ -134,13 +135,22 @@ func Exec(kind string, d D) (m string) {
 	if r == nil {
 		return "no runner registered for kind " + kind
 	}
-	defer func() {
-		if x := recover(); x != nil {
-			m = fmt.Sprint("panic: ", x)
-		}
-	}()
-	return r(d)
+	return Safe(func() string { return r(d) })
 }
+
+// CaseTimeout is the watchdog for a single case (cases take micro- to milliseconds; a case that does
+// not finish is reported as non-termination instead of hanging the explorer).
+var CaseTimeout = func() time.Duration {
+	if s := os.Getenv("VERIF_CASE_TIMEOUT_S"); s != "" {
+		if v, err := time.ParseDuration(s + "s"); err == nil {
+			return v
+		}
+	}
+	return 120 * time.Second
+}()
+
+// TimeoutPrefix marks a mismatch produced by the watchdog.
+const TimeoutPrefix = "timeout: "
 
 // Run executes one case (one lock-step transition); on a mismatch the case is
 // re-run 4 more times from its serialised descriptor (exactly what a replay
@@ -164,7 +174,18 @@ func (r *Report) Mismatch(key, kind, mismatch string, d D) {
 		det[k] = v
 	}
 	det["mismatch"] = mismatch
-	if runners[kind] == nil {
+	if runners[kind] == nil || strings.HasPrefix(mismatch, TimeoutPrefix) {
+		// a non-terminating case is not re-run (each re-run would block for the watchdog period)
+		if strings.HasPrefix(mismatch, TimeoutPrefix) {
+			r.mu.Lock()
+			r.timeouts++
+			if r.timeouts >= 3 { // stop exploring: every further hang costs a watchdog period
+				r.deadline = time.Now()
+				r.caps = append(r.caps, "exploration stopped after 3 non-terminating cases")
+				r.notExh = true
+			}
+			r.mu.Unlock()
+		}
 		r.Fail(key, kind, det, nil)
 		return
 	}
@@ -200,11 +221,22 @@ func HexBig(v *big.Int) string { return fmt.Sprintf("%064x", v) }
 // Safe runs a single-case runner, converting a panic (of the implementation
 // or of the harness) into a mismatch string so that it is reported with its
 // case descriptor instead of killing the explorer.
-func Safe(f func() string) (m string) {
-	defer func() {
-		if x := recover(); x != nil {
-			m = fmt.Sprint("panic: ", x)
-		}
+func Safe(f func() string) string {
+	done := make(chan string, 1)
+	go func() {
+		defer func() {
+			if x := recover(); x != nil {
+				done <- fmt.Sprint("panic: ", x)
+			}
+		}()
+		done <- f()
 	}()
-	return f()
+	t := time.NewTimer(CaseTimeout)
+	defer t.Stop()
+	select {
+	case m := <-done:
+		return m
+	case <-t.C:
+		return TimeoutPrefix + fmt.Sprintf("the case did not finish within %v (non-termination of the library or of the harness on this input)", CaseTimeout)
+	}
 }
